@@ -8,9 +8,11 @@ import (
 	"os"
 	"os/exec"
 	"path/filepath"
+	"sort"
 	"strconv"
 	"strings"
 	"sync/atomic"
+	"syscall"
 	"time"
 
 	"github.com/uhppoted/uhppote-core/types"
@@ -86,8 +88,17 @@ func (l *recorder) OnError(err error) bool {
 
 // listenSession feeds the datagrams produced by next() (nil = end) through one uhppote.Listen call.
 func listenSession(c *ctx, next func() []byte, progress *os.File) (events, errs int64) {
+	return listenSessionX(c, next, progress, false, "interrupt")
+}
+
+// stopForms: what the caller does with the stop channel (a non-nil channel argument in every case)
+var stopForms = map[string]os.Signal{"interrupt": os.Interrupt, "sigterm": syscall.SIGTERM, "sigurg": syscall.SIGURG, "nil-signal": nil}
+
+// listenSessionX: the client built with debug on or off, the listener stopped by sending a signal
+// value (any os.Signal, nil included) or by closing the channel.
+func listenSessionX(c *ctx, next func() []byte, progress *os.File, debug bool, stop string) (events, errs int64) {
 	rec := &recorder{c: c, connected: make(chan struct{}), evDone: make(chan struct{}, 1)}
-	u := uhppote.NewUHPPOTE(types.BindAddr{}, types.BroadcastAddr{}, types.ListenAddr{}, time.Second, listenDevices(), false)
+	u := uhppote.NewUHPPOTE(types.BindAddr{}, types.BroadcastAddr{}, types.ListenAddr{}, time.Second, listenDevices(), debug)
 	f := &drv.Fake{}
 	stuck := false
 	f.ListenFn = func(signal chan any, done chan any, callback func([]byte)) error {
@@ -130,7 +141,7 @@ func listenSession(c *ctx, next func() []byte, progress *os.File) (events, errs 
 	go func() {
 		var err error
 		if p, msg, frame := vk.Guard(func() { err = u.Listen(rec, q) }); p {
-			c.panicked(frame, "Listen panicked: "+msg, "listen", listenCase{hex.EncodeToString(rec.cur), listenCfg})
+			c.panicked(frame, fmt.Sprintf("Listen panicked (client debug=%v, stop channel: %s): %s", debug, stop, msg), "listen", listenCase{hex.EncodeToString(rec.cur), listenCfg})
 		}
 		finished <- err
 	}()
@@ -145,14 +156,29 @@ func listenSession(c *ctx, next func() []byte, progress *os.File) (events, errs 
 		machinery(c.r, "Listen did not reach OnConnected")
 		return
 	}
-	q <- os.Interrupt
+	if stop == "close" {
+		close(q)
+	} else {
+		q <- stopForms[stop]
+	}
+	wait := 30 * time.Second
+	if stop != "interrupt" {
+		wait = 2 * time.Second // whether this form stops the listener is C10's business: here only "no panic"
+	}
 	select {
 	case err := <-finished:
-		if err != nil {
+		if err != nil && stop == "interrupt" {
 			machinery(c.r, "Listen returned %v", err)
 		}
-	case <-time.After(30 * time.Second):
-		machinery(c.r, "Listen did not return within 30 s of the shutdown request")
+	case <-time.After(wait):
+		if stop == "interrupt" {
+			machinery(c.r, "Listen did not return within 30 s of the shutdown request")
+		} else if stop != "close" {
+			select {
+			case q <- os.Interrupt:
+			default:
+			}
+		}
 	}
 	return rec.events.Load(), rec.errs.Load()
 }
@@ -475,4 +501,34 @@ func replayListen(r *vk.Run, lc listenCase) {
 	res, ok := ch.wait(r)
 	cleanWorkDir()
 	fmt.Printf("listener datagram %s: library = %d events, %d errors, crashed=%v   reference = an event or an error, no panic\n", lc.Hex, res.Events, res.Errors, !ok)
+}
+
+// sweepListenStops: a short session (three datagrams) for every combination of debug on / off and
+// stop form; the library's trace output is discarded.
+func sweepListenStops(c *ctx) (n int64) {
+	saved := os.Stdout
+	if null, err := os.OpenFile(os.DevNull, os.O_WRONLY, 0); err == nil {
+		os.Stdout = null
+		defer func() { os.Stdout = saved; null.Close() }()
+	}
+	forms := []string{"close"}
+	for f := range stopForms {
+		forms = append(forms, f)
+	}
+	sort.Strings(forms)
+	sample := [][]byte{statusBody(0x17), statusBody(0x19), make([]byte, 64)}
+	for _, debug := range []bool{false, true} {
+		for _, form := range forms {
+			k := 0
+			listenSessionX(c, func() []byte {
+				if k >= len(sample) {
+					return nil
+				}
+				k++
+				return sample[k-1]
+			}, nil, debug, form)
+			n++
+		}
+	}
+	return
 }
